@@ -257,6 +257,15 @@ def cond_constraints(c):
     return None
 
 
+def fn_args_syms(state):
+    """symbols standing for function arguments and entry fields: everything in the environment of the state that is a plain symbol"""
+    out = set()
+    for v in state.env.values():
+        if isinstance(v, sp.Symbol):
+            out.add(v)
+    return out
+
+
 def divide(e, siz):
     """byte quantity -> element units when it is a multiple of the element size symbol"""
     e = sp.expand(sp.sympify(e))
@@ -516,6 +525,8 @@ class LoopSummary:
             if v is TOP or isinstance(v, (alg.Cond, alg.BoolOp, tuple, list)):
                 return None
 
+        prev_pc = []     # (t == 0) or (the conditions under which the previous iteration came back to the header), see below
+
         def make(values_phi, values_cell):
             s1 = s.clone()
             env = dict(s.env)
@@ -523,6 +534,9 @@ class LoopSummary:
                 env[p.res] = values_phi[p.res]
             for key, ty in cells:
                 s1.store[key] = (values_cell[key], ty)
+            if prev_pc:
+                s1.pc = list(s1.pc) + list(prev_pc)
+                s1.pc_raw = list(s1.pc_raw) + list(prev_pc)
             return s1, env
         # ---- phase 1: havoc, discover invariant steps
         hp, hc = {}, {}
@@ -767,6 +781,34 @@ class LoopSummary:
                 cand = keep
                 continue
             if len(keep) == len(cand):
+                # iteration t >= 1 is only reached when iteration t - 1 came back to the header: whatever that back edge demands of
+                # the closed forms (a test at the bottom of a do-while in particular) holds with t - 1 for t - and says nothing for
+                # t == 0.  Only conditions over t and values that do not change in the loop qualify (a callback result or a loaded
+                # byte of iteration t - 1 is a different value than the symbol of the same name in iteration t).
+                if not prev_pc and ro2 and len(ro2) == 1:
+                    stable = {t}
+                    for v_ in list(init.values()) + list(cinit.values()):
+                        stable |= (sp.sympify(v_.off).free_symbols if isinstance(v_, Ptr) else sp.sympify(v_).free_symbols)
+                    for a_ in fn_args_syms(s):
+                        stable.add(a_)
+                    wk = set(k for k, _ in d.wraps)
+                    newc = []
+                    for c_ in ro2[0][0].pc[len(s.pc):]:
+                        if not isinstance(c_, alg.Cond):
+                            continue
+                        fs = sp.sympify(c_.a).free_symbols | sp.sympify(c_.b).free_symbols
+                        if t not in fs or not (fs - wk) <= stable:
+                            continue
+                        try:
+                            pa = sp.expand(sp.sympify(c_.a).subs(t, t - 1))
+                            pb = sp.expand(sp.sympify(c_.b).subs(t, t - 1))
+                        except Exception:
+                            continue
+                        newc.append(alg.Cond(c_.kind, c_.pred, pa, pb))
+                    if newc:
+                        first = alg.Cond('icmp', 'eq', t, sp.Integer(0))
+                        prev_pc.append(alg.BoolOp('or', [first, alg.BoolOp('and', newc) if len(newc) > 1 else newc[0]]))
+                        continue
                 break
             cand = keep
         # ---- iteration leaves with their inductiveness obligations
